@@ -161,7 +161,10 @@ theorem quitPlayer_attempting (s : St) (c : Nat) (h : attempting ((quitPlayer s)
   unfold quitPlayer at h
   split at h
   · exact h
-  · exact closeOpt_attempting _ _ _ (closeOpt_attempting _ _ _ h)
+  · dsimp only at h
+    have h1 := closeOpt_attempting _ _ _ h
+    have h2 := closeOpt_attempting { s with active := false } _ _ h1
+    exact h2
 
 /-! ### handler/phase consistency (needed for the monotonicity of `attempting`) -/
 def jpOK (C : Conn) : Prop :=
